@@ -676,6 +676,7 @@ def _run_plan(plan, pristine_fp, yatiml_dir, yaml_dir, mount, sched, profile=Fal
                 inv = sc.step
                 th.cur_op = i
                 out = exec_op(env, op, th)
+                sc.ops_done += 1
                 history.append({'t': tid, 'i': i, 'op': op, 'out': out, 'inv': inv, 'ret': sc.step})
                 check_shared(op, out, i)
             if repeat <= 1:
@@ -696,6 +697,7 @@ def _run_plan(plan, pristine_fp, yatiml_dir, yaml_dir, mount, sched, profile=Fal
                         continue
                     th.cur_op = i
                     out = exec_op(env, op, th)
+                    sc.ops_done += 1
                     dg = canon.short(comparable(out))
                     if last.get(i) != dg:
                         last[i] = dg
@@ -1021,7 +1023,7 @@ class World(Engine):
         pf, yd, ymd = self.pristine_fp, self.yatiml_dir, self.yaml_dir
         try:
             run = isolate.fork_call(
-                lambda: run_plan(plan, pf, yd, ymd, profile is not None), timeout=180)
+                lambda: run_plan(plan, pf, yd, ymd, profile is not None), timeout=700)
         except isolate.ChildFailure as e:
             raise HarnessError('simulated run failed: {} (plan kept in {})'.format(
                 e, self.keep_plan(plan)))
